@@ -20,7 +20,12 @@ EXPLANATION = ('Frame conditions (modifies clauses, checked on every path incl. 
                'and two calculators never write to a common object unless the caller passes the same Shot to both.')
 TEXT = ('frames and history harnesses are proved; "bit-identical under threads" follows from the no-shared-writes scan + '
         'determinism of CPython float arithmetic (A-PY) and is additionally exercised by a bounded threaded run')
-NOT_DECIDED = ['thread interleavings themselves are not modelled (no contract-level concurrency): the argument is absence of '
+NOT_DECIDED = ['fresh vs long-used calculator: zero_angle, trajectory, _init_trajectory, fire, set_weapon_zero and '
+               'barrel_elevation_for_target are PROVED for a long-used TrajectoryCalc (every field assigned outside __init__ is a '
+               'leftover that may be written but not read before it is written in the call: Built(used_=True)); module- and '
+               'class-level containers mutated by package code are refused by the engine (pyvc/scan.py shared_mutable_roots: none '
+               'on this tree); Calculator objects themselves carry only _config and _calc',
+               'thread interleavings themselves are not modelled (no contract-level concurrency): the argument is absence of '
                'shared writes (scan) - a bounded run with 4 threads stands in',
                'the zero-finding loop re-uses self.barrel_elevation as scratch: two threads sharing ONE calculator are outside '
                'the property (it speaks of several calculators)']
